@@ -223,6 +223,62 @@ def run(tier, seed):
         rep.violation(key, f"{c['key']} ({dr}): a canonical encoding of the definition is not read and written back unchanged: {h[:160]}",
                       {"container": c["key"], "wowm": f"{os.path.relpath(c['file'], REPO)}:{c['line']}", "direction": dr, "input_frame_hex": fr.hex(),
                        "implementation": h[:400], "expected": f"ok {fr.hex()[:80]}... consumed={len(fr)}", "replay_cmd": f"echo '{rq[:20000]}' | {har}"})
+    # ---- third stream: compressed members / compressed bodies (u32 decompressed size + zlib stream).  Frames from the reference encoder;
+    # read -> write must reproduce every byte outside the zlib stream (except the header's size field) and the same decompressed payload
+    import zlib
+
+    def zsplit(fr):
+        for k in range(len(fr) - 2, 3, -1):
+            if fr[k] == 0x78:
+                try:
+                    pay = zlib.decompress(fr[k:])
+                except zlib.error:
+                    continue
+                if int.from_bytes(fr[k - 4:k], "little") == len(pay):
+                    return fr[:k], pay
+        return None
+
+    zreq, zmeta = [], []
+    for c in conts:
+        toks = c.get("ztokens") or c.get("zmsg_tokens")
+        if toks is None:
+            continue
+        for s_ in range(12 if tier == "quick" else 120):
+            try:
+                body = pyenc.encode(toks, prng, (1, 2, 3, 8)[s_ % 4], s_ if s_ < 8 else None)
+            except pyenc.Unsupported as e:
+                prim_unsupported[str(e)] += 1
+                break
+            except (OverflowError, ValueError):
+                continue
+            if "zmsg_tokens" in c:
+                body = len(body).to_bytes(4, "little") + zlib.compress(body)
+            for dr in directions(c):
+                fr = frame(libname(c), dr, c["opcode"], body)
+                zreq.append(f"codec {libname(c)} {dr} {fr.hex()}")
+                zmeta.append((c, dr, fr))
+    zo = run_parallel(har, zreq, jobs=12) if zreq else []
+    n_zok = 0
+    for (c, dr, fr), rq, h in zip(zmeta, zreq, zo):
+        good = False
+        if h.startswith("ok") and f"consumed={len(fr)} " in h + " ":
+            a, b = zsplit(fr), zsplit(bytes.fromhex(h.split()[1]))
+            w = bytes.fromhex(h.split()[1])
+            szl = 3 if (libname(c) == "wrath" and dr == "server" and w[0] & 0x80) else 2
+            size_ok = (int.from_bytes(w[:szl], "big") & 0x7FFFFF if szl == 3 else int.from_bytes(w[:2], "big")) == len(w) - szl
+            if a is None:
+                good = w == fr          # the branch with the compressed member was not taken: plain byte equality
+            else:
+                good = b is not None and a[0][2:] == b[0][szl:] and a[1] == b[1] and size_ok
+        if good:
+            n_zok += 1
+        elif (zsplit(fr) or (None, None))[1] == b"":
+            # decompressed size 0 + the zlib stream of the empty string: what the library's own writer emits for an empty payload
+            rep.violation("C01/compressed/empty-payload", f"{c['key']} ({dr}): a compressed part with an empty payload is rejected by the reader: {h[:120]}",
+                          {"container": c["key"], "direction": dr, "input_frame_hex": fr.hex()[:4000], "implementation": h[:600], "replay_cmd": f"echo '{rq[:20000]}' | {har}"})
+        else:
+            rep.violation(f"C01/compressed/{c['key']}", f"{c['key']} ({dr}): a canonical encoding with a compressed part is not read and written back with the same fields and payload: {h[:160]}",
+                          {"container": c["key"], "direction": dr, "input_frame_hex": fr.hex()[:4000], "implementation": h[:600], "replay_cmd": f"echo '{rq[:20000]}' | {har}"})
     uns_kinds = collections.Counter(g.split()[1] if len(g.split()) > 1 else g for (_, g) in set(unsupported))
     covered = len({c["key"] for (c, _, _) in hmeta})
     rep.coverage = {
@@ -233,7 +289,7 @@ def run(tier, seed):
         "theorems": po["theorems"],
         "containers_total": len(conts), "containers_exercised": covered,
         "containers_outside_model": {"compressed (translator)": len(uns), **{f"built-in {k}": v for k, v in uns_kinds.items()}},
-        "evaluations": len(hreq), "distinct_nontrivial": len(distinct), "frames_ok": n_ok,
+        "evaluations": len(hreq) + len(zreq), "distinct_nontrivial": len(distinct), "frames_ok": n_ok, "compressed_stream": {"frames": len(zreq), "ok": n_zok},
         "builtin_type_stream": {"frames": n_prim_frames, "reference_encoder_cross_checked_against_lean": n_x, "builtins_without_payload_generator": dict(prim_unsupported)},
         "rule": f"per version-expanded message: directed samples in which every steering variable cycles through every value it is compared with (and one it is not) / every single flag mask, none, all — so every if / else-if / else arm is taken — plus {ns} random samples (arrays 0..4 or 0..9 elements); both directions for msg; distinct = distinct (container, direction, frame)",
         "samples": [{"request": hreq[i][:200], "implementation": ho[i][:200]} for i in (0, len(hreq) // 2, len(hreq) - 1)],
